@@ -1,8 +1,8 @@
 package checks
 
 import (
-	"strings"
 	"fmt"
+	"strings"
 
 	"verifharness/drv"
 	"verifharness/gen"
